@@ -119,6 +119,7 @@ type flatOpts struct {
 	multi     bool // several record types with forced changes
 	sameNames bool // all types share the field names (csv accepts that)
 	safe      bool // only unproblematic names and values
+	uniform   bool // exactly one record type (arrows and parquet accept nothing else)
 }
 
 var safeNames = []string{"a", "b", "c", "d", "e", "ts", "_path", "id"}
@@ -127,7 +128,7 @@ var safeNames = []string{"a", "b", "c", "d", "e", "ts", "_path", "id"}
 // type changes (headers of zeek/table, type checks of csv).
 func genFlat(r *Rng, zctx *zed.Context, n int, o flatOpts) []zed.Value {
 	nt := 1
-	if o.multi || r.Chance(1, 3) {
+	if (o.multi || r.Chance(1, 3)) && !o.uniform {
 		nt = 2 + r.Intn(2)
 	}
 	save := flatNames
@@ -247,6 +248,9 @@ func genCase(r *Rng, class string, n int) (vals []zed.Value, safe bool) {
 		}
 		safe := r.Chance(1, 3)
 		return genFlat(r, zctx, n, flatOpts{pad: big || n >= 60 || r.Chance(1, 3), minCols: minCols, multi: r.Chance(4, 5), safe: safe}), safe
+	case "uniform":
+		// one flat record type: the only input arrows and parquet accept
+		return genFlat(r, zctx, n, flatOpts{pad: big || n >= 60 || r.Chance(1, 3), minCols: 1 + r.Intn(3), uniform: true, safe: true}), true
 	case "single":
 		// single-column records: text/tabwriter flushes every line by itself
 		return genFlat(r, zctx, n, flatOpts{minCols: 1, maxCols: 1, multi: true}), false
